@@ -84,3 +84,17 @@ Definition siphash (key value : bytes) : result Z := siphash_chunks key [value].
 (* digest() = struct.pack("<Q", hash()) *)
 Definition siphash_digest (key value : bytes) : result bytes :=
   h <- siphash key value ;; int_to_le h 8.
+
+(* SipHash_2_4(secret, s): __init__ ends with self.update(s) *)
+Definition sip_new (secret s : bytes) : result sip :=
+  st <- sip_init secret ;; Ok (sip_update st s).
+
+(* digest() on an object *)
+Definition sip_digest (st : sip) : result bytes := int_to_le (sip_hash st) 8.
+
+(* hexdigest() = binascii.hexlify(digest()): lower-case ASCII *)
+Definition hexdigit (n : Z) : Z := if n <? 10 then 48 + n else 87 + n.
+Definition hexlify (b : bytes) : bytes :=
+  flat_map (fun x => [hexdigit (x / 16); hexdigit (x mod 16)]) b.
+Definition siphash_hexdigest (key value : bytes) : result bytes :=
+  d <- siphash_digest key value ;; Ok (hexlify d).
